@@ -953,3 +953,27 @@ Definition contains_o (o : map_order) (c v : value) : outcome bool :=
           end
       end
   end.
+
+(* ------------------------------------------------------------------------------------ *)
+(* comparison chains: a OP1 b OP2 c = (a OP1 b) and (b OP2 c), left to right, stopping at   *)
+(* the first false link (vm: CompareAndPreserve; compiler/ast.rs folds constant chains)  *)
+(* ------------------------------------------------------------------------------------ *)
+Inductive cop := OEq | ONe | OLt | OLe | OGt | OGe | OIn | ONotIn.
+
+Definition cmp_link (o : map_order) (op : cop) (l r : value) : outcome bool :=
+  match op with
+  | OEq => Ok (veq_o o l r)
+  | ONe => Ok (negb (veq_o o l r))
+  | OLt => Ok (match vcmp l r with Lt => true | _ => false end)
+  | OLe => Ok (match vcmp l r with Gt => false | _ => true end)
+  | OGt => Ok (match vcmp l r with Gt => true | _ => false end)
+  | OGe => Ok (match vcmp l r with Lt => false | _ => true end)
+  | OIn => contains_o o r l
+  | ONotIn => bind (contains_o o r l) (fun b => Ok (negb b))
+  end.
+
+Fixpoint chain (o : map_order) (left : value) (links : list (cop * value)) : outcome bool :=
+  match links with
+  | [] => Ok true
+  | (op, r) :: rest => bind (cmp_link o op left r) (fun b => if b then chain o r rest else Ok false)
+  end.
